@@ -81,6 +81,45 @@ fn c15_vtx_header_and_strings_total() {
     }
 }
 
+/// stands for `Lh5Decoder::new`: with fewer than five string terminators in the file the loader must have
+/// given up before it ever builds the decompressor - reaching this is itself a violation
+fn lh5_must_not_be_reached<C: delharc::decode::LhaDecoderConfig, R: Read>(_rd: R) -> delharc::decode::LhaV2Decoder<C, R> {
+    kani::assert(false, "c15.vtx.decompressor_not_started_on_a_file_without_five_strings");
+    kani::assume(false);
+    unreachable!()
+}
+
+/// stands for String::from_utf8_lossy (UTF-8 repair of the five text fields is not the subject; the real
+/// function costs a validation loop per field)
+fn lossy_is_not_the_subject(_v: &[u8]) -> std::borrow::Cow<'_, str> {
+    std::borrow::Cow::Borrowed("")
+}
+
+// @harness
+// @prop C15
+// @tier quick
+// @timeout 900
+// @fn Vtx::load (identifier, stereo byte, header fields, strings-block scan)
+// @sym every byte of a VTX file of 16, 18 or 19 bytes (header + 0, 2 or 3 bytes of strings block; length literal per case)
+// @assert as c15_vtx_header_and_strings_total: for any bytes the loader returns Err (no panic, no arithmetic overflow, no out-of-bounds), never keeps polling the reader after the end of the file, rejects player frequency 0 on the header alone; and it never starts the LH5 decompressor on such a file
+// @bound files of 16/18/19 bytes (unwind 26); longer strings blocks and the LH5 body are outside
+// @stub alloc::fmt::format -> empty string; String::from_utf8_lossy -> empty string (text repair is not the subject); LhaV2Decoder::new -> assert(false) (cuts the decoder, which the bounded files cannot reach, out of the encoding: this is what makes the query fit the quick tier; the thorough twin keeps the real decoder in the encoding)
+// @replay solver-only
+#[kani::proof]
+#[kani::unwind(26)]
+#[kani::stub(alloc::fmt::format, no_format)]
+#[kani::stub(delharc::decode::LhaV2Decoder::new, lh5_must_not_be_reached)]
+#[kani::stub(alloc::string::String::from_utf8_lossy, lossy_is_not_the_subject)]
+fn c15_vtx_header_and_strings_total_quick() {
+    let sel: u8 = kani::any();
+    kani::assume(sel < 3);
+    match sel {
+        0 => vtx_truncated_case(16),
+        1 => vtx_truncated_case(18),
+        _ => vtx_truncated_case(19),
+    }
+}
+
 fn vtx_truncated_case(len: usize) {
     let data: [u8; 24] = kani::any();
     unsafe {
